@@ -1,6 +1,6 @@
 package value
 
-import "fmt"
+import "strings"
 
 type ValueVMFunction struct {
 	Ident string
@@ -9,7 +9,12 @@ type ValueVMFunction struct {
 func (_ ValueVMFunction) Kind() ValueKind { return VmFunctionValueKind }
 
 func (self ValueVMFunction) Display() (string, *VmInterrupt) {
-	return fmt.Sprintf("<vm-runtime-function (%s)>", self.Ident), nil
+	// What a program prints does not depend on the backend or on the mangled name of the function
+	// (which is an internal detail and not stable across runs): same text as the tree-walking interpreter.
+	if strings.Contains(self.Ident, "$lambda_") {
+		return "<closure>", nil
+	}
+	return "<function>", nil
 }
 
 func (_ ValueVMFunction) IsEqual(other Value) (bool, *VmInterrupt) {
